@@ -40,7 +40,8 @@ def body(run):
                        "when the policy is None and counted as not driven otherwise")
     run.assumptions += [
         "a channel counts as established when the client's Dial returns nil; a request on it is sent as a cross-check",
-        "advertised endpoints are read over the wire (GetEndpoints) and compared with Server.Endpoints()",
+        "advertised endpoints are read over the wire (GetEndpoints) and through Server.Endpoints(), for both endpoint URLs of the "
+        "listener (127.0.0.1 and localhost), at the start and at the end of every configuration's run (10 readings)",
     ]
 
 
